@@ -535,6 +535,9 @@ enum Ctx {
     Decl,
     /// no shell: `glob` is called on explicitly given attributed fields
     Direct,
+    /// `f() { set -e; probe w1 w2 …; }; f` — command words expanded inside a function call, errexit on
+    /// (wave 3: a mode nobody generated; same `expand_words` path, other environment state)
+    Func,
 }
 
 impl Ctx {
@@ -546,10 +549,11 @@ impl Ctx {
             Ctx::Scalar => "scalar",
             Ctx::Decl => "decl",
             Ctx::Direct => "direct",
+            Ctx::Func => "fn",
         }
     }
     fn parse(s: &str) -> Option<Ctx> {
-        [Ctx::Cmd, Ctx::For, Ctx::Arr, Ctx::Scalar, Ctx::Decl, Ctx::Direct].into_iter().find(|c| c.name() == s)
+        [Ctx::Cmd, Ctx::For, Ctx::Arr, Ctx::Scalar, Ctx::Decl, Ctx::Direct, Ctx::Func].into_iter().find(|c| c.name() == s)
     }
     fn single(self) -> bool {
         matches!(self, Ctx::Scalar | Ctx::Decl)
@@ -709,6 +713,7 @@ fn command_text(prim: &Prim) -> String {
     let ws = prim.words.join(" ");
     match prim.ctx {
         Ctx::Cmd | Ctx::Direct => format!("probe {ws}"),
+        Ctx::Func => format!("f() {{ set -e; probe {ws}; }}; f"),
         Ctx::For => format!("for x in {ws}; do probe \"$x\"; done"),
         Ctx::Arr => format!("arr=({ws}); probe \"$arr\""),
         Ctx::Scalar => format!("{VAL}={ws}; probe \"${VAL}\""),
@@ -722,7 +727,7 @@ fn parse_words(prim: &Prim) -> Result<Vec<(sx::Word, sx::ExpansionMode)>, String
     let ws = prim.words.join(" ");
     let n = prim.words.len();
     let src = match prim.ctx {
-        Ctx::Cmd | Ctx::For | Ctx::Direct => format!("probe {ws}"),
+        Ctx::Cmd | Ctx::For | Ctx::Direct | Ctx::Func => format!("probe {ws}"),
         Ctx::Arr => format!("arr=({ws})"),
         Ctx::Scalar => format!("{VAL}={ws}"),
         Ctx::Decl => format!("export {VAL}={ws}"),
@@ -732,7 +737,7 @@ fn parse_words(prim: &Prim) -> Result<Vec<(sx::Word, sx::ExpansionMode)>, String
         return Err("redirs".into());
     }
     match prim.ctx {
-        Ctx::Cmd | Ctx::For | Ctx::Direct => {
+        Ctx::Cmd | Ctx::For | Ctx::Direct | Ctx::Func => {
             if cmd.words.len() != n + 1 || !cmd.assigns.is_empty() {
                 return Err(format!("words={}", cmd.words.len()));
             }
@@ -1019,6 +1024,7 @@ fn field_work(
     } else {
         // completeness: brute-force walk
         let mut expected: BTreeSet<String> = BTreeSet::new();
+        let mut entry_expected: BTreeSet<String> = BTreeSet::new();
         let mut frontier: Vec<String> = vec![String::new()];
         for i in 0..k {
             let mut nf = vec![];
@@ -1039,13 +1045,27 @@ fn field_work(
                         nf.push(format!("{p}{n}/"));
                     } else {
                         let path = format!("{p}{n}");
-                        if exists(env, state, d, &path) {
-                            expected.insert(path);
+                        let there = exists(env, state, d, &path);
+                        if there {
+                            expected.insert(path.clone());
+                        }
+                        // wave 3, the entry-based Spec (Glob/EntrySpec.lean): a name found in a listing for a
+                        // final pattern component is a member as it is; only a final component that is not a
+                        // pattern is checked with fstatat
+                        if there || matches!(&kinds[i], Kind::Pattern(_)) {
+                            entry_expected.insert(path);
                         }
                     }
                 }
             }
             frontier = nf;
+        }
+        // exact, for every tree (links and unsearchable directories included): the result is the sorted set
+        // of entry-based members (BTreeSet<String> iterates bytewise), or the quote-removed field if empty
+        let want: Vec<String> =
+            if entry_expected.is_empty() { vec![qr.clone()] } else { entry_expected.iter().cloned().collect() };
+        if *res != want {
+            v.push(format!("not-entry-exact:want={}", show_obs(&want)));
         }
         let fallback = *res == [qr.clone()];
         let mut sound = true;
@@ -1895,7 +1915,8 @@ fn gen_prim(rw: &mut Rng, tree: &[Entry]) -> Prim {
     let glob_on = !rw.chance(1, 8);
     let fd_limit = rw.chance(1, 25);
     let ctx = match rw.below(20) {
-        0..=10 => Ctx::Cmd,
+        0..=9 => Ctx::Cmd,
+        10 => Ctx::Func,
         11 | 12 => Ctx::For,
         13 | 14 => Ctx::Arr,
         15 => Ctx::Scalar,
